@@ -367,9 +367,12 @@ def shard_misc(p):
                     reqs.append({"op": "query", "q": text})
                     meta.append(("deep:" + style + ":" + mode, text, v, depth))
         for _ in range(p.get("n_deep", 0)):
-            e = exact.gen_chain(rng, rng.choice([17, 33, 65, 129, 257]))        # long flat chains (number of operands, not depth)
+            if rng.random() < 0.5:
+                e = exact.gen_chain(rng, rng.choice([17, 33, 65, 129, 257]))        # long flat chains (number of operands, not depth)
+            else:
+                e = exact.gen_chain(rng, rng.choice([65, 129, 257, 300, 520]), calls=rng.choice([0.5, 1.0]))     # ... of built-in calls
             try:
-                v = exact.ev(e)
+                v = ev_calls(e)
             except Exception:
                 continue
             for mode in ("single", "tight", "random"):
